@@ -161,7 +161,9 @@ def run_property(prop, tier, seed, replay=None):
 
         # every case has been judged; minimise and report a few of each kind (oracle rejections first)
         for mr_, c, r_orig in pending_oracle[:4]:
-            small = core.shrink(mr_.model, c, lambda j: not j[1], mr_.impl_env, mr_.spec_needs_impl) if mr_.shrinkable else c
+            open_preds = [mr_.regions[f["region"]] for f in open_findings if f.get("region") in mr_.regions]
+            avoid = (lambda cc: any(p(cc) for p in open_preds)) if open_preds else None
+            small = core.shrink(mr_.model, c, lambda j: not j[1], mr_.impl_env, mr_.spec_needs_impl, avoid=avoid) if mr_.shrinkable else c
             if small is c:
                 r2 = [r_orig]       # report the run that failed, not a re-run (timing-dependent scenarios)
             else:
